@@ -96,6 +96,11 @@ def gen_scenario(rng, cfg):
                     # an argument ending in a digit glued to the operator: still an argument, not a descriptor number
                     redirs[0]["glue_arg"] = rng.choice(["-1", "-7", "+3", "x9", "-n2"])
                 name = "c%d_%d" % (ci, i)
+                uarg = None
+                if redirs and rng.chance(15) and not any(r.get("glue_arg") for r in redirs):
+                    # a word with multi-byte characters in front of the redirections (byte and character
+                    # positions on the line differ from there on)
+                    uarg = rng.choice(["caf\u00e9", "\u00fc", "a\u00f1\u00e9", "\u20ac5", "x\u00e9y\u00e9z"])
                 has_in = any(r["k"] in ("in", "hs") for r in redirs)
                 role = gen_io_role(rng, name, has_in or i > 0)
                 if (has_in or i > 0) and i < n - 1 and not any(r["k"] == "out" and r["fd"] == 1 for r in redirs) \
@@ -104,6 +109,9 @@ def gen_scenario(rng, cfg):
                     role = {"t": "filter", "code": rng.choice([0, 0, 3]), "rchunk": rng.choice([4096, 65536]),
                             "on_epipe": rng.choice(["sigpipe", "exit"])}
                 stages.append({"kind": "pup", "name": name, "role": role, "text": "pup " + name, "redirs": redirs})
+                if uarg:
+                    stages[-1]["args"] = [uarg]
+                    stages[-1]["plain_args"] = True
             lines.append({"stages": stages, "probe": False})
         lines.append({"stages": [{"kind": "pup", "name": "prb%d" % ci, "text": "pup prb%d" % ci, "args": ["$?"],
                                    "role": {"t": "io", "read": "none", "code": 0, "writes": [
@@ -137,6 +145,12 @@ class C04Runner(LineRunner):
         if extra and not line.get("probe"):
             raise Violation("fd_target_mismatch", "%s was started with descriptors beyond the named ones: %s (%s)" % (
                 st.label(), extra, ", ".join(self.short(st.pup.fds[fd]["link"]) for fd in extra)))
+        if st.spec.get("plain_args"):
+            argv = st.pup.hello["argv"][2:]
+            if argv != st.spec["args"]:
+                raise Violation("fd_target_mismatch", "%s: arguments arrived as %r, expected %r (a word with multi-byte "
+                                "characters in front of the redirections)" % (st.label(), argv, st.spec["args"]))
+            self.sim.probe("multibyte_word_before_redirections")
         glued = [r["glue_arg"] for r in st.spec.get("redirs", []) if r.get("glue_arg")]
         if glued:
             argv = st.pup.hello["argv"][2:]
